@@ -236,6 +236,11 @@ def h_signed(ctx, template, pos, cls, edit, nin=3, nout=3):
     wrong = list(sigs)
     wrong[-1] = keys[-1][1](D)
     ctx.check(not accepts(f, script_sig(wrong)), 'signature from another key is rejected')
+    if len(signers) >= 2:
+        # m-of-n with all signatures from ONE key of the set (two signing events): a key may satisfy only one signature
+        for k in (signers[-1], signers[0]):
+            dup = [keys[k][1](D) for _ in signers]
+            ctx.check(not accepts(f, script_sig(dup)), 'signature from another key is rejected', detail='all signatures by key %d' % k)
     if edit is not None:
         g = _apply(ctx, f, edit, pos)
         ok = accepts(g, ssig)
